@@ -946,4 +946,23 @@ theorem coerceLit_fuel (Pm : Params) (env : Env) (vars : Vars) (f f' : Nat) (T :
     coerceLit Pm env vars f T l allow = coerceLit Pm env vars f' T l allow :=
   coerceLitT_congr Pm vars _ _ T l allow (fun n m hm => coerceLitObj_fuel Pm env vars f f' n m (by omega) (by omega))
 
+theorem find_self {defs : List ArgDef} (hnd : noDupNames (defs.map (·.name)) = true) {d : ArgDef}
+    (hd : d ∈ defs) : ArgDef.find defs d.name = some d := by
+  induction defs with
+  | nil => simp at hd
+  | cons d0 ds ih =>
+    obtain ⟨hfresh, hnd'⟩ := noDupNames_cons (by simpa using hnd)
+    rcases List.mem_cons.mp hd with rfl | hd
+    · simp [ArgDef.find]
+    · have hne : (d0.name == d.name) = false := by
+        cases hb : d0.name == d.name
+        · rfl
+        · exfalso; apply hfresh
+          have : d0.name = d.name := by simpa using hb
+          rw [this]; exact List.mem_map_of_mem hd
+      have := ih hnd' hd
+      simp only [ArgDef.find] at this ⊢
+      simp [hne, this]
+
+
 end ApiFu.C05.R
